@@ -1,10 +1,10 @@
 package main
 
 import (
-	"sort"
-	"go/types"
 	"fmt"
 	"go/token"
+	"go/types"
+	"sort"
 	"strings"
 
 	"golang.org/x/tools/go/ssa"
